@@ -25,9 +25,11 @@ A0 == NoArgs
 (* outermost), fixed (bytes inside the outermost length that are not filler), tail, end (bytes of the tail that belong to    *)
 (* the structure), law ("ok": accepted for every L; "cap": accepted iff L <= 16640; "any": whatever the specification says)  *)
 S(prop, fn, lit, fields, fixed, tail, end, law) ==
-  [prop |-> prop, fn |-> fn, a |-> A0, alen |-> -1, lit |-> lit, fields |-> fields, fixed |-> fixed, tail |-> tail, end |-> end, law |-> law]
+  [prop |-> prop, fn |-> fn, a |-> A0, alen |-> -1, lit |-> lit, fields |-> fields, fixed |-> fixed, tail |-> tail, end |-> end, law |-> law, light |-> FALSE]
 SA(prop, fn, a, alen, lit, fields, fixed, tail, end, law) ==
-  [prop |-> prop, fn |-> fn, a |-> a, alen |-> alen, lit |-> lit, fields |-> fields, fixed |-> fixed, tail |-> tail, end |-> end, law |-> law]
+  [prop |-> prop, fn |-> fn, a |-> a, alen |-> alen, lit |-> lit, fields |-> fields, fixed |-> fixed, tail |-> tail, end |-> end, law |-> law, light |-> FALSE]
+(* the same skeletons through a second / third dispatcher are sampled more lightly in the quick tier *)
+Light(ss) == [k \in 1..Len(ss) |-> [ss[k] EXCEPT !.light = TRUE]]
 
 SctHead == <<0>> \o Id32 \o Rep(3, 8)                         \* version, log id, timestamp
 RecSites == <<
@@ -97,8 +99,8 @@ ExtSites ==
     S("C05", fn, <<0, 11, 0, 0, 0>>, << <<3, 2, 0>>, <<5, 1, 1>> >>, 1, <<>>, 0, "any"),
     S("C05", fn, <<255, 206, 0, 0>>, << <<3, 2, 0>> >>, 0, <<>>, 0, "any"),
     S("C05", fn, <<0, 57, 0, 0>>, << <<3, 2, 0>> >>, 0, <<>>, 0, "any") >> IN
-  One("parse_tls_extension") \o SubSeq(One("parse_tls_client_hello_extension"), 1, 8) \o SubSeq(One("parse_tls_server_hello_extension"), 1, 2)
-  \o SubSeq(One("parse_tls_server_hello_extension"), 8, 16)
+  One("parse_tls_extension") \o Light(SubSeq(One("parse_tls_client_hello_extension"), 1, 8)) \o Light(SubSeq(One("parse_tls_server_hello_extension"), 1, 2))
+  \o Light(SubSeq(One("parse_tls_server_hello_extension"), 8, 16))
   \o << S("C05", "parse_tls_extensions", <<0, 23, 0, 0, 253, 232, 0, 0>>, << <<7, 2, 0>> >>, 0, <<0, 22, 0, 0>>, 4, "ok"),
         S("C05", "parse_tls_extension_sni", <<0, 0, 0, 0, 0, 0, 0, 0, 0>>, << <<3, 2, 0>>, <<5, 2, 2>>, <<8, 2, 5>> >>, 5, <<1>>, 0, "any"),
         S("C05", "parse_tls_extension_session_ticket", <<0, 35, 0, 0>>, << <<3, 2, 0>> >>, 0, <<>>, 0, "any"),
@@ -146,9 +148,9 @@ Lmax(s) == IF s.fields = <<>> THEN 65535 ELSE Min2(65535, Pow(s.fields[1][2]) - 
 Sampled(s, L) ==
   \/ Lmax(s) <= 255                                  \* one-byte length fields: the whole domain
   \/ L <= Lmin(s) + (IF Thorough THEN 2048 ELSE 16)
-  \/ (L % 256) \in {0, 130}
+  \/ (L % 256) = 130 \/ ((L % 256) = 0 /\ (Thorough \/ ~s.light))
   \/ L \in 16383..16385 \/ L \in 16639..16641 \/ L >= 65533
-  \/ (L * 7919) % 1021 = 13
+  \/ ((L * 7919) % 1021 = 13 /\ (Thorough \/ ~s.light))
   \/ (Thorough /\ ((L % 32) \in {0, 2} \/ (L % 256) = 255 \/ L \in 16370..16660))
 Doms == [k \in 1..NS |-> SetToSeq({L \in Lmin(Sites[k])..Lmax(Sites[k]) : Sampled(Sites[k], L)})]
 ASSUME TLCSet(5, Doms)
